@@ -5,6 +5,7 @@ import re
 from ..srcmodel import attr_chain, call_name, unparse, norm_text, walk_no_nested
 from ..cfg import cfg_of, raised_class
 from .. import excflow
+from ..match import just, facts, Q
 from ..match import (arg_of, unguarded_path, only_raises_from, is_true_const,
                      is_falsy_const, str_consts)
 
@@ -375,6 +376,31 @@ def r5_handlers(run):
               "src/saml2_tophat/response.py", nontrivial=False)
 
 
+def r6_every_accept_passed_verify(run):
+    run.rule("R6", "Entity._parse_response hands back a response only after a "
+             "verify() call on it completed normally - on the first attempt or "
+             "on the signature retry: there is no path on which the status and "
+             "version checks of _verify() never ran")
+    m = run.model
+    fi = m.func("entity.Entity._parse_response")
+    cfg = cfg_of(fi, m)
+    ver = [nd.id for nd, c in cfg.call_nodes("verify")
+           if isinstance(c.func, ast.Attribute) and nd.kind != "exc"]
+    run.floor("R6", "verify() calls in _parse_response", len(ver), 2)
+    rets = [r.id for r in cfg.by_kind("return")
+            if r.ast.value is not None and not is_falsy_const(r.ast.value)]
+    run.require(rets, "_parse_response: the return of the response vanished")
+    wit = unguarded_path(cfg, cfg.entry, rets, ver,
+                         just(cfg, ("xmlstr", False), ("response", False)))
+    run.check(wit is None, "R6", fi.qual + "::verify-completed",
+              "every path to the return passes a verify() that returned",
+              "a response can be returned although no verify() call completed "
+              "(e.g. the retry after a signature error parses the assertions "
+              "without _verify): status, version, destination and time checks "
+              "are skipped", fi.loc(),
+              witness=cfg.describe_path(wit) if wit else None)
+
+
 def check(run):
     run.explanation = (
         "C06: agreement of samlp's STATUS_* constants with "
@@ -389,3 +415,4 @@ def check(run):
     r3_must_call(run)
     r4_version(run)
     r5_handlers(run)
+    r6_every_accept_passed_verify(run)
